@@ -109,11 +109,21 @@ def read_hlog_fields(path):
     return out
 
 
-def write_header(path, pte_entries=(), hlog_fields=(), static=True, brace_same_line=False, end_line='};', decoy=False):
+def write_header(path, pte_entries=(), hlog_fields=(), static=True, brace_same_line=False, end_line='};', decoy=False,
+                 decoy_before=False):
     """pte_entries: [(pattern, raw C message text, params list)]; hlog_fields: [(name, size)]"""
     L = ['// synthetic header written by the verification harness', '', '#define MAX_PTE_LENGTH 9',
          'struct pte_entry_struct', '{', '  char key[MAX_PTE_LENGTH];', '  char format[150];', '  uint8_t params[2];',
          '  char file[128];', '  uint32_t line;', '};', '', '#define PTE_TABLE_SIZE %d' % (len(pte_entries) + 1), '']
+    if decoy_before:
+        # an example entry of either table in the leading comment, and arrays of the same struct types in front of the
+        # tables (a retired table kept for reference): none of these lines is part of a table
+        L[1:1] = ['/* one entry per line, for example', '  { "********", "example entry %d", {3}, "example.cpp", 1 },',
+                  '  { 1, "example_counter" },', '*/']
+        L += ['static struct pte_entry_struct retired_pte_entries[2] =', '{',
+              '  { "********", "retired catch-all entry", {}, "old.cpp", 1 },', '  { ""        , "The End" }', '};', '',
+              'struct mex_hlog_field;', 'static struct mex_hlog_field retired_hlog_layout[2] =', '{', '  { 2, "retired_a" },',
+              '  { 1, "retired_b" },', '};', '']
     start = ('static ' if static else '') + 'struct pte_entry_struct static_pte_entry_table[PTE_TABLE_SIZE] = '
     if brace_same_line:
         L.append(start + '{')
